@@ -641,3 +641,86 @@ Proof.
     destruct T as (T1 & _); [rewrite A0; lia|]. destruct ok; [|reflexivity].
     destruct (T1 eq_refl) as (Z & _). rewrite A0 in Z. lia.
 Qed.
+
+(* ---- C14: exact characterisation of the try_* results in reachable states ---- *)
+Lemma try_read_result x arc : RInv x -> small x -> r_handles x <> 0%nat ->
+  o_res (snd (rstep x (RTry KRead arc))) = if nW x + nH x =? 0 then RSome (r_ng x) else RNone.
+Proof.
+  intros I B Hh. destruct (bounds x I B) as (B0 & B1).
+  destruct (nW x + nH x =? 0) eqn:Z.
+  2:{ apply try_fails_when_writer; auto. lia. }
+  assert (Z' : nW x + nH x = 0) by lia.
+  pose proof I as (Q1 & Q0 & Le & Ex & F).
+  unfold rstep, rstep_core. cbv beta iota zeta. cbn [r_upd r_handles r_sh r_futs r_guards r_ng].
+  destruct (Nat.eqb (r_handles x) 0) eqn:Eh; [apply Nat.eqb_eq in Eh; contradiction|].
+  set (s0 := set_wk [] (r_sh x)).
+  assert (A1 : sw1 s0 = sw1 (r_sh x)) by reflexivity.
+  pose proof (try_read_spec s0) as T. destruct (rw_try_read s0) as [s' ok].
+  destruct T as (T1 & T2 & _); [rewrite A1; lia|]. destruct ok; [destruct arc; reflexivity|].
+  destruct (T2 eq_refl) as (Od & _). rewrite A1, Q1 in Od.
+  replace (2 * (nR x + nU x) + nW x + nH x) with (0 + (nR x + nU x) * 2) in Od by lia.
+  rewrite N.mod_add in Od by lia. discriminate.
+Qed.
+
+Lemma try_write_result x arc : RInv x -> small x -> r_handles x <> 0%nat ->
+  o_res (snd (rstep x (RTry KWrite arc))) =
+  if (sw0 (r_sh x) =? 0) && (sw1 (r_sh x) =? 0) then RSome (r_ng x) else RNone.
+Proof.
+  intros I B Hh. destruct (bounds x I B) as (B0 & B1).
+  unfold rstep, rstep_core. cbv beta iota zeta. cbn [r_upd r_handles r_sh r_futs r_guards r_ng].
+  destruct (Nat.eqb (r_handles x) 0) eqn:Eh; [apply Nat.eqb_eq in Eh; contradiction|].
+  set (s0 := set_wk [] (r_sh x)).
+  assert (A1 : sw1 s0 = sw1 (r_sh x)) by reflexivity. assert (A0 : sw0 s0 = sw0 (r_sh x)) by reflexivity.
+  unfold rw_try_write.
+  pose proof (try_lock_spec W0 s0) as T. destruct (try_lock W0 s0) as [s1 ok].
+  destruct T as (T1 & T2 & Fr & _). pose proof (wframe_W0_sw1 _ _ Fr) as C1. cbn [getw] in *.
+  destruct ok; cbn [negb].
+  - destruct (T1 eq_refl) as (Z & O). rewrite A0 in Z. rewrite Z. cbn [N.eqb andb].
+    rewrite (surjective_pairing (cas W1 0 WRITER_BIT s1)). rewrite cas_snd. cbn [getw]. rewrite C1, A1.
+    replace (0 =? 0) with true by reflexivity. cbn [andb].
+    destruct (sw1 (r_sh x) =? 0); [destruct arc; reflexivity | reflexivity].
+  - destruct (T2 eq_refl) as (NZ & _). rewrite A0 in NZ.
+    destruct (sw0 (r_sh x) =? 0) eqn:Q; [lia | reflexivity].
+Qed.
+
+Lemma try_upread_result x arc : RInv x -> small x -> r_handles x <> 0%nat ->
+  o_res (snd (rstep x (RTry KUpRead arc))) = if sw0 (r_sh x) =? 0 then RSome (r_ng x) else RNone.
+Proof.
+  intros I B Hh. destruct (bounds x I B) as (B0 & B1).
+  unfold rstep, rstep_core. cbv beta iota zeta. cbn [r_upd r_handles r_sh r_futs r_guards r_ng].
+  destruct (Nat.eqb (r_handles x) 0) eqn:Eh; [apply Nat.eqb_eq in Eh; contradiction|].
+  set (s0 := set_wk [] (r_sh x)).
+  assert (A0 : sw0 s0 = sw0 (r_sh x)) by reflexivity.
+  unfold rw_try_upgradable_read.
+  pose proof (try_lock_spec W0 s0) as T. destruct (try_lock W0 s0) as [s1 ok].
+  destruct T as (T1 & T2 & _). cbn [getw] in *.
+  destruct ok; cbn [negb].
+  - destruct (T1 eq_refl) as (Z & _). rewrite A0 in Z. rewrite Z. destruct arc; reflexivity.
+  - destruct (T2 eq_refl) as (NZ & _). rewrite A0 in NZ.
+    destruct (sw0 (r_sh x) =? 0) eqn:Q; [lia | reflexivity].
+Qed.
+
+Lemma try_upgrade_result x g arc : alookup g (r_guards x) = Some (GU, arc) ->
+  o_res (snd (rstep x (RTryUpgrade g))) = if sw1 (r_sh x) =? 2 then RSome g else RNone.
+Proof.
+  intro L. unfold rstep, rstep_core. cbv beta iota zeta. cbn [r_upd r_sh r_futs r_guards].
+  rewrite L. unfold rw_try_upgrade, cas, ONE_READER, WRITER_BIT. cbn [getw].
+  change (sw1 (set_wk [] (r_sh x))) with (sw1 (r_sh x)).
+  destruct (sw1 (r_sh x) =? 2) eqn:Q; cbn; rewrite Q; reflexivity.
+Qed.
+
+(* try_upgrade fails exactly when another reader is alive *)
+Lemma try_upgrade_exact x g arc : RInv x -> alookup g (r_guards x) = Some (GU, arc) ->
+  (o_res (snd (rstep x (RTryUpgrade g))) = RSome g <-> nR x = 0).
+Proof.
+  intros (Q1 & Q0 & Le & Ex & F) L. rewrite (try_upgrade_result x g arc L).
+  pose proof (asum_In (isk GU) _ _ _ (alookup_In _ _ _ L)) as U1. rewrite isk_eval in U1. cbn in U1.
+  assert (HU : nU x = 1) by (unfold nU in *; lia).
+  assert (W0 : nW x + nH x = 0) by lia.
+  destruct (sw1 (r_sh x) =? 2) eqn:Q.
+  - split; [intros _; lia | reflexivity].
+  - split; [discriminate | intro R0; lia].
+Qed.
+
+(* try_* never register a listener: the identities of the registered entries do not change *)
+Definition ev_ids (s : sh) := (map eid (se0 s), map eid (se1 s), map eid (se2 s)).
